@@ -7,6 +7,7 @@ The model is `Gotlcp.Model.LRU`, parameterised by the regenerated source facts
 `Facts.{tlcp,dtlcp}.lru*`; the spec is the textbook map `Gotlcp.Spec.LRUMap`.
 -/
 import Gotlcp.Lemmas.LRU
+import Gotlcp.Lemmas.LRUConc
 import Gotlcp.Generated.Facts
 
 set_option linter.unusedSimpArgs false
@@ -624,6 +625,31 @@ theorem C11_zero_only_evicted (b : Bool) (s : State) (op : Op) (o : ObjId)
               rcases h with rfl | h
               · exact Or.inr ⟨back, hb, hv, by omega⟩
               · exact Or.inl h
+
+/-! #### concurrent use is equivalent to a sequential order -/
+
+/-- **Linearizability.** For any number of goroutines, any programs and ANY schedule: the
+cache contents equal those of the *sequential* run of the completed calls taken in the order
+in which they acquired the mutex; every goroutine received exactly the results that
+sequential run gives to its calls; and each goroutine's completed calls are a prefix of its
+program in program order (so the sequential order respects every thread's own order).
+The content that ties this to the source is `C11_facts`: `Put` and `Get` hold the cache
+mutex for their whole body (first statements `c.Lock(); defer c.Unlock()`), which is what
+the two-action model of a call in `Model/LRUConc.lean` encodes. -/
+theorem C11_linearizable (b : Bool) (s0 : State) (p0 : Nat → List Op) (sched : List Nat) :
+    let c := Model.LRUConc.exec b (Model.LRUConc.start s0 p0) sched
+    let seq := run b s0 (c.done.map (·.2))
+    c.cache = seq.1 ∧
+    (∀ t, c.outs t = Model.LRUConc.outsOf t c.done seq.2) ∧
+    (∀ t, Model.LRUConc.opsOf t c.done ++ c.progs t = p0 t) := by
+  have h := Lemmas.LRUConc.inv_exec b s0 p0 _ sched (Lemmas.LRUConc.inv_start b s0 p0)
+  exact ⟨h.cacheEq, h.outsEq, h.progEq⟩
+
+/-- two goroutines, one schedule: both calls complete and thread 1's lookup sees thread 0's store -/
+example :
+    let p0 : Nat → List Op := fun t => if t = 0 then [.put "a" (some 1)] else if t = 1 then [.get "a"] else []
+    let c := Model.LRUConc.exec true (Model.LRUConc.start (init 64 2) p0) [0, 1, 0, 1, 1]
+    c.done = [(0, .put "a" (some 1)), (1, .get "a")] ∧ c.outs 1 = [.got (some 1) true] := by decide
 
 /-! #### the tie to the source: regenerated facts -/
 
